@@ -991,6 +991,8 @@ class Engine:
             return z3.BoolVal(False)
         if isinstance(a, VClass) and isinstance(b, VClass):
             return self.eq(a, b, st)
+        if isinstance(a, VFunc) and isinstance(b, VFunc):
+            return z3.BoolVal(a.qname == b.qname)       # builtin type / function objects are singletons
         if isinstance(a, VOpt) or isinstance(b, VOpt):
             raise Unsupported("`is` on optional value")
         if type(a) is not type(b):
@@ -1454,10 +1456,22 @@ class Engine:
 
     def apply_contract(self, st, c, args, kwargs, node=None):
         """call site of a function under contract: assert pre, havoc frame, assume (exceptional) post"""
+        prev = getattr(self, "at_call_site", False)
+        self.at_call_site = True        # lets a contract tell a (self-recursive) call site from the verification of its own body
+        try:
+            return self._apply_contract(st, c, args, kwargs, node)
+        finally:
+            self.at_call_site = prev
+
+    def _apply_contract(self, st, c, args, kwargs, node=None):
         mod, fnode = self.contract_fnode(c)
         if any(isinstance(d, ast.Name) and d.id == "classmethod" for d in fnode.decorator_list):
             owner = (getattr(c, "real_name", None) or c.name).rsplit(".", 1)[0]
-            args = [VClass(owner, None)] + list(args)       # Class.method(...) on a classmethod: cls is the class it was reached through
+            nparams = len(fnode.args.posonlyargs + fnode.args.args)
+            if args and isinstance(args[0], VObj) and len(args) + len(kwargs) == nparams:
+                args = [VClass(args[0].cls, None)] + list(args[1:])      # instance.method(...): cls is the instance's class
+            else:
+                args = [VClass(owner, None)] + list(args)       # Class.method(...): cls is the class it was reached through
         a = self.bind_params(fnode, args, kwargs, st, mod)
         site = "%s@L%s" % (c.name.split(".")[-1], getattr(node, "lineno", "?"))
         caller = getattr(self, "cur_contract", None)
@@ -2421,6 +2435,11 @@ class Engine:
                 else:
                     raise Unsupported("%s outside loop" % o.kind)
             self.stats["paths"] += npaths
+            nr = getattr(c, "never_returns", ())
+            if normal_paths == 0 and nr is not True and variant not in nr:
+                # vacuity guard: a function whose contract has a normal postcondition must have a normal exit path explored
+                # (a modelling gap that turns every path into an exception would otherwise pass silently)
+                self.oblige(State(), "vacuity:normal-exit-explored", z3.BoolVal(True), kind="vacuity")
             return True
         except Unsupported as e:
             del self.obligations[n0:]
